@@ -650,22 +650,38 @@ func classOf(s *Scenario, e Exchange) string {
 		return "head"
 	case e.Resp.Interim:
 		return "interim_1xx"
-	case e.Resp.Status == 204 || e.Resp.Status == 304:
-		return "bodiless_status"
 	case strings.HasPrefix(e.Req.Proto, "1.0"):
 		return "http10"
-	case e.Req.HSet == 7:
-		return "expect_continue"
-	case e.Req.Framing == "chT":
-		return "req_trailer"
-	case strings.HasPrefix(e.Req.Framing, "ch"):
-		return "req_chunked"
-	case e.Resp.Framing == "close":
-		return "resp_close_delimited"
-	case strings.HasPrefix(e.Resp.Framing, "chunked"):
-		return "resp_chunked"
 	}
 	return "plain"
+}
+
+// reqClassOf is classOf restricted to request features (class of the origin-side symptoms).
+func reqClassOf(s *Scenario, e Exchange) string {
+	switch {
+	case s.Mode != "":
+		return s.Mode
+	case s.Pipelined:
+		return "pipelined"
+	case e.Req.Method == "HEAD":
+		return "head"
+	case strings.HasPrefix(e.Req.Proto, "1.0"):
+		return "http10"
+	}
+	return "plain"
+}
+
+// closeCause names who asked for the connection to be closed (class of the conn_not_closed symptom).
+func closeCause(e Exchange) string {
+	switch {
+	case e.Req.Close:
+		return "client_connection_close"
+	case e.Req.Proto == "1.0":
+		return "client_http10_no_keepalive"
+	case e.Resp.Close:
+		return "origin_connection_close"
+	}
+	return "origin_close_delimited"
 }
 
 func shortHash(b []byte) string {
@@ -837,7 +853,9 @@ func runConn(env *h1harness.Env, s *Scenario, ci int, script *originScript, out 
 			case len(extra) > 0:
 				report(k, "resp_trailing_garbage", fmt.Sprintf("%d bytes after the response that should have been the last: %q", len(extra), trunc(extra, 80)))
 			case end != h1harness.EndEOF:
-				report(k, "conn_not_closed", "either side asked to close but after the response the connection ended as: "+end)
+				mu.Lock()
+				out.findings = append(out.findings, finding{k, closeCause(e), "conn_not_closed", "either side asked to close but after the response the connection ended as: " + end})
+				mu.Unlock()
 			}
 			return
 		}
@@ -861,7 +879,9 @@ func runConn(env *h1harness.Env, s *Scenario, ci int, script *originScript, out 
 	extra, end := cl.Drain()
 	addOutcome("probe_ok,end=" + end)
 	if len(extra) > 0 || end != h1harness.EndEOF {
-		report(len(exs)-1, "conn_not_closed", fmt.Sprintf("after the closing probe: %d extra bytes, end=%s", len(extra), end))
+		mu.Lock()
+		out.findings = append(out.findings, finding{len(exs) - 1, "client_connection_close", "conn_not_closed", fmt.Sprintf("after the final request, which carried Connection: close: %d extra bytes, end=%s", len(extra), end)})
+		mu.Unlock()
 	}
 }
 
@@ -996,7 +1016,7 @@ func checkOrigin(s *Scenario, log []*h1harness.RawRequest, parseErrs []string, o
 	}
 	out.originReq = len(log)
 	for _, pe := range parseErrs {
-		out.findings = append(out.findings, finding{0, classOf(s, s.Conns[0][0]), "req_malformed_at_origin", pe})
+		out.findings = append(out.findings, finding{0, reqClassOf(s, s.Conns[0][0]), "req_malformed_at_origin", pe})
 	}
 	// per connection order
 	for ci, exs := range s.Conns {
@@ -1005,7 +1025,7 @@ func checkOrigin(s *Scenario, log []*h1harness.RawRequest, parseErrs []string, o
 			var c, k int
 			if n, _ := fmt.Sscanf(t, "c%de%d", &c, &k); n == 2 && c == ci && reached[t] {
 				if k <= last {
-					out.findings = append(out.findings, finding{k, classOf(s, exs[min(k, len(exs)-1)]), "req_order_or_duplicate", fmt.Sprintf("origin saw exchanges in order %v", order)})
+					out.findings = append(out.findings, finding{k, reqClassOf(s, exs[min(k, len(exs)-1)]), "req_order_or_duplicate", fmt.Sprintf("origin saw exchanges in order %v", order)})
 					break
 				}
 				last = k
@@ -1016,7 +1036,7 @@ func checkOrigin(s *Scenario, log []*h1harness.RawRequest, parseErrs []string, o
 			if !reached[t] {
 				continue
 			}
-			cls := classOf(s, e)
+			cls := reqClassOf(s, e)
 			add := func(sym, detail string) {
 				out.findings = append(out.findings, finding{k, cls, sym, detail})
 			}
